@@ -94,4 +94,65 @@ def keyGenInternal (P : Params) (H G : List Nat → Nat → List Nat) (nG nH : N
       let tr := H pk 64
       some (pk, skEncode (bitlen (2 * P.eta)) P.eta rho key tr s1 s2 t0)
 
+
+/-- number of coefficients equal to 1 in a hint vector -/
+def countOnes (h : List (List Int)) : Nat := (h.map (fun q => (q.filter (fun e => e = 1)).length)).foldl (· + ·) 0
+
+/-- coefficientwise ternary map over vectors of polynomials -/
+def zipWith3V (g : Int → Int → Int → Int) (a b c : List (List Int)) : List (List Int) :=
+  List.zipWith (fun ap (bc : List Int × List Int) => List.zipWith (fun e (au : Int × Int) => g e au.1 au.2) ap (List.zip bc.1 bc.2)) a (List.zip b c)
+
+/-- Algorithm 7 lines 11-29 for one value of κ.  Outer `none`: the XOF prefix handed to `SampleInBall` ran out; inner `none`: `(z, h) = ⊥`. -/
+def signAttempt (P : Params) (H : List Nat → Nat → List Nat) (nH : Nat) (s1 s2 t0 : List (List Int)) (aHat : List (List (List Int)))
+    (mu rhoPP : List Nat) (kappa : Nat) : Option (Option (List Nat × List (List Int) × List (List Int))) :=
+  -- 11: y ← ExpandMask(ρ'', κ)
+  let y := expandMask H (1 + bitlen (P.gamma1 - 1)) P.gamma1 P.l rhoPP kappa
+  -- 12: w ← NTT⁻¹(Â ∘ NTT(y));  13: w1 ← HighBits(w)
+  let w := aHat.map (fun row => invNtt (rowTimes row (y.map ntt)))
+  let w1 := w.map (fun q => q.map (highBits P.gamma2))
+  -- 15: c̃ ← H(μ ‖ w1Encode(w1), λ/4);  16: c ← SampleInBall(c̃)
+  let cTilde := H (mu ++ w1Encode (bitlen ((8380417 - 1) / (2 * P.gamma2) - 1)) w1) (P.lambda / 4)
+  match sampleInBall P.tau (H cTilde nH) with
+  | none => none
+  | some c =>
+    -- 17-19: ĉ ← NTT(c); ⟨⟨cs1⟩⟩ ← NTT⁻¹(ĉ ∘ ŝ1); ⟨⟨cs2⟩⟩ ← NTT⁻¹(ĉ ∘ ŝ2)
+    let cs1 := s1.map (fun s => invNtt (mulQ (ntt c) (ntt s)))
+    let cs2 := s2.map (fun s => invNtt (mulQ (ntt c) (ntt s)))
+    -- 20: z ← y + ⟨⟨cs1⟩⟩ (held mod± q);  21: r0 ← LowBits(w − ⟨⟨cs2⟩⟩)
+    let z := List.zipWith (fun yp cp => List.zipWith (fun a b => modpm Q (a + b)) yp cp) y cs1
+    let r0 := List.zipWith (fun wp cp => List.zipWith (fun a b => lowBits P.gamma2 (a - b)) wp cp) w cs2
+    -- 23: if ‖z‖∞ ≥ γ1 − β or ‖r0‖∞ ≥ γ2 − β then (z, h) ← ⊥
+    if decide (infNorm z ≥ P.gamma1 - P.beta) || decide (infNorm r0 ≥ P.gamma2 - P.beta) then some none else
+    -- 25-26: ⟨⟨ct0⟩⟩ ← NTT⁻¹(ĉ ∘ t̂0); h ← MakeHint(−⟨⟨ct0⟩⟩, w − ⟨⟨cs2⟩⟩ + ⟨⟨ct0⟩⟩)
+    let ct0 := t0.map (fun s => invNtt (mulQ (ntt c) (ntt s)))
+    let h := zipWith3V (fun a b c0 => if makeHint P.gamma2 (-c0) (a - b + c0) then (1 : Int) else 0) w cs2 ct0
+    -- 28: if ‖⟨⟨ct0⟩⟩‖∞ ≥ γ2 or the number of 1's in h is greater than ω then (z, h) ← ⊥
+    if decide (infNorm ct0 ≥ P.gamma2) || decide (((countOnes h : Nat) : Int) > (P.omega : Int)) then some none else
+    some (some (cTilde, z, h))
+
+/-- Algorithm 7 lines 10-32: `while (z, h) = ⊥ .. κ ← κ + ℓ` (`n` bounds the number of attempts) -/
+def signLoop (P : Params) (H : List Nat → Nat → List Nat) (nH : Nat) (s1 s2 t0 : List (List Int)) (aHat : List (List (List Int)))
+    (mu rhoPP : List Nat) : Nat → Nat → Option (List Nat × List (List Int) × List (List Int))
+  | 0, _ => none
+  | n + 1, kappa =>
+    match signAttempt P H nH s1 s2 t0 aHat mu rhoPP kappa with
+    | none => none
+    | some (some r) => some r
+    | some none => signLoop P H nH s1 s2 t0 aHat mu rhoPP n (kappa + P.l)
+
+/-- Algorithm 7 `ML-DSA.Sign_internal(sk, M', rnd)` on the decoded private key `(ρ, K, tr, s1, s2, t0)` -/
+def signInternal (P : Params) (H G : List Nat → Nat → List Nat) (nG nH : Nat) (attempts : Nat)
+    (rho key tr : List Nat) (s1 s2 t0 : List (List Int)) (Mp rnd : List Nat) : Option (List Nat) :=
+  -- 5: Â ← ExpandA(ρ)
+  match expandA (fun x => G x nG) P.k P.l rho with
+  | none => none
+  | some aHat =>
+    -- 6-7: μ ← H(tr ‖ M', 64); ρ'' ← H(K ‖ rnd ‖ μ, 64)
+    let mu := H (tr ++ Mp) 64
+    let rhoPP := H (key ++ rnd ++ mu) 64
+    match signLoop P H nH s1 s2 t0 aHat mu rhoPP attempts 0 with
+    | none => none
+    -- 33: σ ← sigEncode(c̃, z mod± q, h)
+    | some (cTilde, z, h) => some (sigEncode (1 + bitlen (P.gamma1 - 1)) P.gamma1 P.omega cTilde z h)
+
 end Fips204.Spec
